@@ -30,6 +30,11 @@ CHECKS["C07"] = {
     "note": "Trusted: Coq kernel + vm_compute; gorgonia Reshape on a clone modelled as element-count check + panic on negative extent; harness and driver.",
     "technique": "Coq proof (model refines ONNX shape-operator spec) + bounded-exhaustive correspondence check judged in Coq",
 }
+CHECKS["C08"] = {
+    "text": "Models of transpose.go/concat.go/slice.go/gather.go/expand.go (as repaired by four fix: commits; Slice through a model of gorgonia's Dense.Slice, Expand through the broadcast model proved correct in C14) and ONNX index-formula specifications (Slice-13 clamping rules, Gather formula, two-way broadcast, concatenation, permutation). Tie: bounded-exhaustive cases (data shapes rank 1..3 extents 1..3; all permutations; all axes; all (start,end,step) over [-d-2,d+2] x {1,2,3,-1} + INT64 extremes; index tensors rank 0..2; all targets) executed on the implementation, judged in Coq against S and M; two known-finding classes (Slice drops extent-1 axes: pinned by the repository's own test; gorgonia's axis-0 stepped extent).",
+    "note": "Trusted: Coq kernel + vm_compute; gorgonia Slice/Transpose/Concat/Repeat modelled (G/Slice.v matched 7287 probed calls in the design round); harness and driver. Gather's block-copy loop is represented by its index formula (validated by the exhaustive cases, not yet by a loop proof).",
+    "technique": "Coq models + ONNX index-formula specs, bounded-exhaustive correspondence check judged in Coq; Expand reduced to the proved broadcast theorem",
+}
 
 _PENDING = "check under construction in this round; not yet claimed"
-NOT_APPLICABLE = {p: _PENDING for p in ["C01", "C02", "C03", "C04", "C05", "C06", "C08", "C09", "C10", "C11", "C12", "C13", "C16", "C17", "C18"]}
+NOT_APPLICABLE = {p: _PENDING for p in ["C01", "C02", "C03", "C04", "C05", "C06", "C09", "C10", "C11", "C12", "C13", "C16", "C17", "C18"]}
